@@ -57,6 +57,17 @@ class C15(Prop):
                 # foreach variable
                 out.append(case("arr = [%s]; foreach b in arr { %s } return arr;" % (lit(v), stmt), [enc_value([v])], "foreach-elem"))
         out = [c for c in out if c is not None]
+        # what a loop hands to the script - index, key, element, character - is a value too: a copy taken in one iteration (by
+        # assignment, in an array literal, as an argument) is not changed by the iterations that follow
+        for coll, n in [('["a", "b", "c"]', 3), ('"xyz"', 3), ("[10, 20, 30, 40]", 4), ("5..8", 4)]:
+            for j in range(n):
+                out.append(case("first = -1; foreach i, v in %s { if (i == %d) { first = i; } } return first;" % (coll, j), [enc_value(j)] * 2, "loop-index-copy", runs=2))
+                out.append(case("foreach i, v in %s { if (i == %d) { pair = [i, i + 0]; } } return pair;" % (coll, j), [enc_value([j, j])], "loop-index-copy"))
+                out.append(case("function keep(p) { return p; } foreach i, v in %s { if (i == %d) { k = keep(i); } } return k;" % (coll, j), [enc_value(j)], "loop-index-copy"))
+                out.append(case("all = []; foreach i, v in %s { if (i <= %d) { last = i; } } foreach i2, v2 in %s { z = i2; } return last;" % (coll, j, coll), [enc_value(j)], "loop-index-copy"))
+        out.append(case('ks = []; foreach k, v in {"a": 1, "b": 2, "c": 3} { if (k == "a") { f = k; g = v; } } return [f, g];', [enc_value(["a", 1])] * 2, "loop-index-copy", runs=2))
+        out.append(case("foreach i, v in [7, 8, 9] { if (i == 0) { e = v; } v++; } return e;", [enc_value(7)], "loop-index-copy"))
+        out.append(case("foreach i, v in [7, 8, 9] { if (i == 1) { e = i; } i++; } return e;", [enc_value(1)], "loop-index-copy"))
         # strings and booleans
         out.append(case('a = "x"; b = a; b += "y"; return [a, b];', [enc_value(["x", "xy"])], "string"))
         out.append(case('a = "x"; b = a; b = b + "y"; return [a, b, "x"];', [enc_value(["x", "xy", "x"])] * 2, "string", runs=2))
